@@ -19,7 +19,9 @@ META = dict(
         "(1) exhaustive single-member archives: every component sequence of depth <= 4 (thorough <= 5) over "
         "{'..','.','','a','b',<dst name>,<dst name>+'x'} x every per-joint separator choice in {'/','\\\\'} x {relative, absolute "
         "inside the sandbox} x {file, directory entry}, destination given as absolute path; (2) Hypothesis: archives of 1-5 such "
-        "members (depth <= 5) x 6 spellings of the destination (absolute, trailing separator, relative, './', '../dest'). Oracle: "
+        "members (depth <= 5) x 6 spellings of the destination (absolute, trailing separator, relative, './', '../dest'); one case in three "
+        "opens the archive through wiki.make_wiki instead (formats nuwiki and multi-nuwiki, temporary directory inside the sandbox), one in "
+        "six first extracts a benign archive into a sibling directory in the same process. Oracle: "
         "snapshot (path, type, size, sha1) of the whole sandbox root before/after nuwiki.extractall; every difference must lie under "
         "the destination; an archive with a lexically escaping member must raise. Non-trivial: >= 1 member with a '..', absolute "
         "or sibling-prefix component; distinct = distinct (member list, destination form)."
@@ -118,31 +120,85 @@ def member_name(sbx, comps, seps, absolute, trailing):
 
 
 def run_case(ctx, sbx, members, form, case):
-    """members: list of names. Returns whether extractall raised."""
+    """members: list of names. Returns whether extractall raised.
+    case['entry']: 'extractall' (default) | 'make_wiki:nuwiki' | 'make_wiki:multi-nuwiki' - the collection zip opened through
+    wiki.make_wiki, which extracts into a fresh temporary directory (tempfile.tempdir is pointed at the sandbox destination);
+    case['history']: a benign archive is extracted into the sibling directory 'a' by the same process first."""
+    import tempfile
+
     from mwlib.core import nuwiki
 
+    entry = case.get("entry", "extractall")
+    if case.get("history"):
+        hb = io.BytesIO()
+        with zipfile.ZipFile(hb, "w") as zf:
+            zf.writestr("images/safe.png", b"earlier job")
+            zf.writestr("nfo.json", b"{}")
+        hb.seek(0)
+        with zipfile.ZipFile(hb) as zf:
+            try:
+                nuwiki.extractall(zf, os.path.join(sbx.root, "a"))
+            except Exception:
+                pass  # a benign archive may be rejected; whatever it left behind is part of the new baseline
+        sbx.base = sbx.snapshot()
+        sbx.dirty = True
     buf = io.BytesIO()
     import warnings
 
     with warnings.catch_warnings():
         warnings.simplefilter("ignore")
         with zipfile.ZipFile(buf, "w") as zf:
+            if entry != "extractall":
+                zf.writestr("nfo.json", b'{"format": "%s"}' % entry.split(":")[1].encode())
             for i, name in enumerate(members):
                 zf.writestr(zipfile.ZipInfo(name), b"" if name.endswith("/") else b"payload %d" % i)
     buf.seek(0)
     raised = None
     cwd = os.getcwd()
     os.chdir(sbx.root)
+    dst_real = sbx.dst
     try:
-        with zipfile.ZipFile(buf) as zf:
+        if entry == "extractall":
+            with zipfile.ZipFile(buf) as zf:
+                try:
+                    nuwiki.extractall(zf, sbx.dst_arg(form))
+                except Exception as e:
+                    raised = e
+        else:
+            from mwlib.core import wiki
+
+            zpath = os.path.join(sbx.root, "collection.zip")  # part of neither snapshot: removed below
+            with open(zpath, "wb") as f:
+                f.write(buf.getvalue())
+            old_tmp = tempfile.tempdir
+            tempfile.tempdir = sbx.dst
             try:
-                nuwiki.extractall(zf, sbx.dst_arg(form))
-            except Exception as e:
-                raised = e
+                try:
+                    wiki.make_wiki(zpath)
+                except Exception as e:
+                    raised = e
+            finally:
+                tempfile.tempdir = old_tmp
+                os.remove(zpath)
+            made = os.listdir(sbx.dst)
+            stray = [x for x in made if not (x.startswith("tmp") and os.path.isdir(os.path.join(sbx.dst, x)))]
+            if stray:
+                ctx.fail("wrote-outside-destination:" + entry, case, "next to the temporary extraction directory: %r (raised=%r)" % (stray, raised))
+            dst_real = os.path.join(sbx.dst, ([x for x in made if x.startswith("tmp")] + ["tmpZ"])[0])
     finally:
         os.chdir(cwd)
     after = sbx.snapshot()
-    esc = [n for n in members if escapes(n, sbx.dst)]
+    esc = [n for n in members if escapes(n, dst_real)]
+    if getattr(sbx, "dirty", False):
+        base = sbx.base
+        sbx.dirty = False
+        if after != base:
+            diff = sorted(set(after.items()) ^ set(base.items()))[:6]
+            ctx.fail("wrote-outside-destination:after-earlier-extraction", case, "changed outside %s: %r (raised=%r)" % (dst_real, diff, raised))
+        elif esc and raised is None:
+            ctx.fail("escaping-member-accepted", case, "members %r escape lexically but the extraction returned normally" % esc)
+        sbx.reset()
+        return raised is not None, bool(esc)
     if after != sbx.base:
         diff = sorted(set(after.items()) ^ set(sbx.base.items()))[:6]
         ctx.fail("wrote-outside-destination", case, "changed outside %s: %r (raised=%r)" % (sbx.dst, diff, raised))
@@ -209,18 +265,24 @@ def run_shard(ctx):
         return comps, seps, draw(st.integers(0, 3)) == 0, draw(st.integers(0, 3)) == 0
 
     @ctx.settings(ctx.n(6000, 150000))
-    @given(st.lists(member(), min_size=1, max_size=5), st.sampled_from(DST_FORMS))
-    def t(ms, form):
+    @given(st.lists(member(), min_size=1, max_size=5), st.sampled_from(DST_FORMS),
+           st.sampled_from(["extractall"] * 4 + ["make_wiki:nuwiki", "make_wiki:multi-nuwiki"]), st.integers(0, 5))
+    def t(ms, form, entry, hist):
         names = [member_name(sbx, *m) for m in ms]
         names = [n for n in names if n and n != "/"]
         if not names:
             names = ["a"]
         shown = [n.replace(sbx.root, "<ROOT>") for n in names]
         case = dict(members=shown, dst_form=form)
+        if entry != "extractall":
+            case["entry"] = entry
+            case["dst_form"] = form = "abs"
+        if hist == 0:
+            case["history"] = True
         ctx.announce(case)
         r, esc = run_case(ctx, sbx, names, form, case)
         nt = nontrivial_members(names)
-        labels = ["multi", "dst:" + form, "rejected" if r else "accepted"]
+        labels = ["multi", "dst:" + form, "rejected" if r else "accepted", "entry:" + entry] + (["after-earlier-extraction"] if case.get("history") else [])
         if nt:
             labels.append("nontrivial")
         if esc:
